@@ -96,7 +96,7 @@ def faultEngine : Engine := fun inp obs =>
     match parseRepo repoS, parseIdxList rootsS "." with
     | some r, some roots =>
       if c0 != "0" then .viol "C10,C01" s!"the fault-free baseline run failed (exit {c0})" else
-      if c1 == "-9" then .viol "C10" "git-sizer did not terminate within 20 s" else
+      if c1 == "-9" then .viol "C10" "git-sizer did not terminate within the hang limit (60 s)" else
       -- a subprocess that truncates its output but still reports success is outside the property
       -- (indistinguishable from a smaller repository): no expectation on the report then
       let lying : Bool := match specS.splitOn "|" with
